@@ -13,13 +13,13 @@ const (
 	mfT  = "embedded/appendable/multiapp.(*MultiFileAppendable)."
 )
 
-func c03Appendables(c *Ctx) {
-	r := "C03.5/singleapp-sync"
+func c03Appendables(c *Ctx, pfx string) {
+	r := pfx + "/singleapp-sync"
 	if f := c.mustFn(r, aofT+"sync"); f != nil {
 		fsync := callTo("os.(*File).Sync", "embedded/appendable/fileutils.Fdatasync")
 		c.ruleOrder(r, f, "flush", callTo(aofT+"flush"), "fsync", fsync, nil, 2)
 		c.ruleMustPass(r, f, nil, "fsync", fsync, nil, false)
-		c.ruleErrChecked("C03.7/err", f, "flush", callTo(aofT+"flush"), 1)
+		c.ruleErrChecked(pfx+"/err", f, "flush", callTo(aofT+"flush"), 1)
 		// the buffer is released only when fsync succeeded (retryable mode): the stores that reset
 		// wbufUnwrittenOffset are dominated by the err == nil edge of the fsync result
 		for i, in := range sites(f, storeTo("AppendableFile.wbufUnwrittenOffset")) {
@@ -36,25 +36,25 @@ func c03Appendables(c *Ctx) {
 	if f := c.mustFn(r, "embedded/appendable/fileutils.fdatasync"); f != nil {
 		c.ruleMustPass(r, f, nil, "fsync syscall", callTo("os.(*File).Sync", "syscall.Fdatasync", "golang.org/x/sys/unix.Fdatasync", "syscall.Fsync", "golang.org/x/sys/unix.Fsync"), nil, false)
 	}
-	r = "C03.5/singleapp-readonly-switch"
+	r = pfx + "/singleapp-readonly-switch"
 	if f := c.mustFn(r, aofT+"SwitchToReadOnlyMode"); f != nil {
 		drop := storeTo("AppendableFile.writeBuffer")
 		c.ruleOrder(r, f, "flush", callTo(aofT+"flush"), "writeBuffer=nil", drop, nil, 1)
 		c.ruleOrder(r, f, "sync", callTo(aofT+"sync"), "writeBuffer=nil", drop,
 			whenCond(false, func(a string) bool { return hasFieldSuffix(a, "retryableSync") }), 1)
-		c.ruleErrChecked("C03.7/err", f, "flush", callTo(aofT+"flush"), 1)
-		c.ruleErrChecked("C03.7/err", f, "sync", callTo(aofT+"sync"), 1)
+		c.ruleErrChecked(pfx+"/err", f, "flush", callTo(aofT+"flush"), 1)
+		c.ruleErrChecked(pfx+"/err", f, "sync", callTo(aofT+"sync"), 1)
 	}
-	r = "C03.5/singleapp-close"
+	r = pfx + "/singleapp-close"
 	if f := c.mustFn(r, aofT+"Close"); f != nil {
 		c.ruleOrder(r, f, "flush", callTo(aofT+"flush"), "f.Close", callTo("os.(*File).Close"),
 			whenCond(true, func(a string) bool { return hasFieldSuffix(a, "readOnly") }), 1)
-		c.ruleErrChecked("C03.7/err", f, "flush", callTo(aofT+"flush"), 1)
+		c.ruleErrChecked(pfx+"/err", f, "flush", callTo(aofT+"flush"), 1)
 	}
-	r = "C03.5/singleapp-flush"
+	r = pfx + "/singleapp-flush"
 	if f := c.mustFn(r, aofT+"flush"); f != nil {
 		c.ruleOrder(r, f, "seekIfRequired", callTo(aofT+"seekIfRequired"), "f.Write", callTo("os.(*File).Write"), nil, 1)
-		c.ruleErrChecked("C03.7/err", f, "seekIfRequired", callTo(aofT+"seekIfRequired"), 1)
+		c.ruleErrChecked(pfx+"/err", f, "seekIfRequired", callTo(aofT+"seekIfRequired"), 1)
 		// in retryable mode the buffer survives flush: the reset is only on the !retryableSync edge
 		for i, in := range sites(f, storeTo("AppendableFile.wbufUnwrittenOffset")) {
 			q := &pathQ{fn: f, fromEntry: true, to: func(x ssa.Instruction) bool { return x == in },
@@ -63,7 +63,7 @@ func c03Appendables(c *Ctx) {
 				"buffer reset in flush only when retryableSync is off", "flush releases the write buffer although retryable sync is on")
 		}
 	}
-	r = "C03.5/multiapp-rotation"
+	r = pfx + "/multiapp-rotation"
 	if f := c.mustFn(r, mfT+"Append"); f != nil {
 		c.chain(r, f, nil,
 			step{"currApp.SwitchToReadOnlyMode", callTo(appSwitchRO + "@currApp")},
@@ -72,13 +72,13 @@ func c03Appendables(c *Ctx) {
 			step{"openAppendable", callTo(mfT + "openAppendable")},
 			step{"store currApp", storeTo("MultiFileAppendable.currApp")},
 		)
-		c.ruleErrChecked("C03.7/err", f, "SwitchToReadOnlyMode", callTo(appSwitchRO+"@currApp"), 1)
-		c.ruleErrChecked("C03.7/err", f, "currApp.Append", callTo(appAppend+"@currApp"), 1)
+		c.ruleErrChecked(pfx+"/err", f, "SwitchToReadOnlyMode", callTo(appSwitchRO+"@currApp"), 1)
+		c.ruleErrChecked(pfx+"/err", f, "currApp.Append", callTo(appAppend+"@currApp"), 1)
 	}
 	for _, n := range []string{"sync", "Flush", "Close", "SwitchToReadOnlyMode"} {
 		if f := c.mustFn(r, mfT+n); f != nil {
 			target := map[string]string{"sync": appSync, "Flush": appFlush, "Close": appClose, "SwitchToReadOnlyMode": appSwitchRO}[n]
-			c.ruleMustPass("C03.5/multiapp-delegates", f, nil, "currApp."+strings.TrimPrefix(target, app), callTo(target+"@currApp"), nil, false)
+			c.ruleMustPass(pfx+"/multiapp-delegates", f, nil, "currApp."+strings.TrimPrefix(target, app), callTo(target+"@currApp"), nil, false)
 		}
 	}
 }
@@ -95,11 +95,24 @@ func dependsOn(v ssa.Value, p func(ssa.Value) bool) bool {
 		if p(x) {
 			return true
 		}
-		if u, ok := x.(*ssa.UnOp); ok && u.Op == token.MUL {
-			if a, ok := u.X.(*ssa.Alloc); ok {
-				for _, r := range *a.Referrers() {
-					if st, ok := r.(*ssa.Store); ok && st.Addr == a && walk(st.Val, d+1) {
+		if a, ok := x.(*ssa.Alloc); ok {
+			for _, r := range *a.Referrers() {
+				switch y := r.(type) {
+				case *ssa.Store:
+					if y.Addr == a && walk(y.Val, d+1) {
 						return true
+					}
+				case *ssa.IndexAddr:
+					for _, rr := range *y.Referrers() {
+						if st, ok := rr.(*ssa.Store); ok && st.Addr == y && walk(st.Val, d+1) {
+							return true
+						}
+					}
+				case *ssa.FieldAddr:
+					for _, rr := range *y.Referrers() {
+						if st, ok := rr.(*ssa.Store); ok && st.Addr == y && walk(st.Val, d+1) {
+							return true
+						}
 					}
 				}
 			}
